@@ -2,6 +2,11 @@
    (/repo/p2p/network.go, /repo/p2p/peer.go) for n parties and k connections
    per pair.  NO PROOFS in this file (see MeshProof.v).
 
+   Time is not modelled: a schedule is an interleaving of atomic steps and may
+   leave any delay between two steps.  The implementation's mesh-formation
+   path must therefore be free of timers (deadlines, timeouts); harness c19
+   checks this on the source (c19scan.go) and by late-start scenarios.
+
    Threads.  Party i has a main thread (tid 2i: Create/Join + Connect) and an
    accept thread (tid 2i+1: accept()/acceptLoop()/acceptConn()).  A schedule is
    a list of thread ids; a thread that is not enabled (blocked in c.Wait(),
